@@ -707,6 +707,16 @@ func c09R6(p *core.Program, r *core.Report, sc *scanClosure) {
 			"T can drop a binding (an iteration of the loop over Args() ends without `t.args[name] = s`): a placeholder bound to that argument then counts as unbound and panics instead of rendering the argument (for an empty argument: nothing)")
 		return true
 	})
+	// maps.Insert(t.args, a.Args()) stores every pair by definition
+	for _, c := range core.CallsTo(info, tf.Body, true, "maps.Insert") {
+		if len(c.Args) == 2 {
+			fld := core.FieldOf(info, c.Args[0])
+			if ac, ok := ast.Unparen(c.Args[1]).(*ast.CallExpr); ok && fld != nil && fld.Name() == "args" && strings.HasSuffix(core.CalleeName(info, ac), ").Args") {
+				nloops++
+				r.OK(rule, tf, "every binding yielded by Args() is stored under its name", c.Pos(), "maps.Insert(t.args, a.Args()) stores every pair")
+			}
+		}
+	}
 	if nloops == 0 {
 		r.Anchor(rule, "loop over TArg.Args() in snippet.T")
 	}
